@@ -16,7 +16,8 @@ CFG = {
             "the asset and fixture packages of /repo and three packages produced by the real builder (none/gzip/zstd); single-bit flips: all "
             "bits of one hand-encoded fully-recorded package, seeded positions in lead / signature header / header / payload of the smallest "
             "real package (quick ~2000; thorough: all bits of both headers, every 8th elsewhere), seeded (quick) or every 64th (thorough) bit of "
-            "the largest asset, seeded bits of the built packages; plus the driver's own MD5/SHA-1/SHA-256 against fixed hashlib vectors and "
+            "the largest asset, seeded bits of the built packages; op digmem03: verify_digests() on the UN-REPARSED Package value that build() / build_and_sign(Ed25519) returned "
+            "(3 configurations each; never written, never parsed), as it is and with one bit of `content` flipped in memory (first, last, seeded bits), predicted from the bytes the value writes (\"same as parse\"); plus the driver's own MD5/SHA-1/SHA-256 against fixed hashlib vectors and "
             "against the Rust crates on every length 0..150 (thorough 0..600). Non-trivial = the bytes parse as a package; distinct = distinct "
             "request lines. Verdicts: dontcare = rejected by the parser or inside the spec's don't-care region (wrong data type, digest without "
             "algorithm or vice versa, empty digest array, duplicated digest tags).",
